@@ -533,16 +533,25 @@ PROPS = {
         "pinned_theorems": ["C12_all_or_nothing", "C12_entries_homogeneous", "C12_all_or_nothing_hit_success",
                             "C12_all_or_nothing_hit_failure", "C12_aonb_correct", "C12_all_or_nothing_warm_refuted",
                             "C12_deterministic", "C12_handled_is_closure", "C12_cache_soundb_correct",
-                            "C12_cache_transparent_partial", "C12_no_cache_no_write", "C12_cache_transparent_refuted"],
+                            "C12_cache_transparent_partial", "C12_no_cache_no_write", "C12_cache_transparent_refuted",
+                            "C12_stale_failed_class"],
         "rule": ("one case = one HISTORY on the real code. Worlds: 8 corpus specs (the five cache__* specs, the two "
                  "workspace_fast_check specs (collect-all-diagnostics mode), basic); 400 (quick) / 10000 (thorough) "
                  "generated worlds of 1-4 JSR packages (generator of C09 without cross-package `export *`, 35% of the "
                  "packages failing fast check through a transform diagnostic or a tracer diagnostic, optional second "
                  "entrypoint, optionally a module that is in the graph but never traced), 12% of them the retrace "
-                 "shape (a diagnostic of an early module caused by a trace that starts in a later module). History: "
+                 "shape (a diagnostic of an early module caused by a trace that starts in a later module), 18% DIAMONDS "
+                 "(2-3 packages whose public API references a common package D through a type import, an import type, "
+                 "a named re-export, a base class or an inner module; D top-level in 40%, D depending on a further "
+                 "package in some; prescribed edit: one referrer stops using D / the root stops importing a referrer / "
+                 "the root stops importing D). For every package the set of packages its traced public API references "
+                 "is obtained by running the real tracer on that package ALONE (hook), independently of what the "
+                 "multi-package run recorded; the model writes that set into the cache entry and the real entry's "
+                 "dependencies are compared with it. History: "
                  "sources v1 without cache (5 runs: determinism), with a shared in-memory FastCheckCache cold, then "
                  "warm; ONE source is edited (the erroring module: error removed / private edit, an entrypoint, an "
-                 "untraced module, a public declaration added, a private declaration added, an error introduced, a "
+                 "untraced module, a public declaration added, a private declaration added, an error introduced, the "
+                 "root stops importing one package (registry worlds), a "
                  "comment; any package, so dependency packages too); v2 without cache, with the now stale or still "
                  "valid cache, warm; v1 again with the cache twice (8 steps). Per world state the harness abstracts "
                  "what the REAL tracer found (hook verif_public_ranges: module order, dependencies; outcomes from the "
@@ -563,7 +572,8 @@ PROPS = {
             "source hashes are interned source texts (equal hash <=> equal source); the real u64 hashes are mapped to these ids when an entry is written",
             "cache entries whose serialized module info fails to deserialize are not generated",
             "Err outcomes carry at least one diagnostic (outcomes_wf), as in the code",
-            "known findings F-C12a (warm failed entry misses an entrypoint), F-C12b (failed entry validates although its cause changed) and F-C12c (cross-package export * + default) are reported as KNOWN-FINDING; model/implementation comparison of slots, cache and traffic is NOT suspended for F-C12a/b",
+            "known findings F-C12a (warm failed entry misses an entrypoint), F-C12b (FAILED entry validates although its cause changed; a disagreement of a successful entry with the sources is NOT in the class) and F-C12c (cross-package export * + default somewhere in the history) are reported as KNOWN-FINDING; model/implementation comparison of slots, cache and traffic is NOT suspended for F-C12a/b",
+            "workspace worlds keep every member reachable from the root: a member handed to workspace fast check whose export module is not in the graph makes ModuleGraph::build_fast_check_type_graph panic (module_slots.get_mut(..).unwrap(), graph.rs) - outside the driver's contract, not generated",
         ],
         "partial": ["C12_cache_transparent_partial has the read-set property of the tracer as an explicit hypothesis (CacheSound), checked on every step of every history; the hypothesis is FALSE in general (C12_cache_transparent_refuted, F-C12b)",
                     "all-or-nothing after a cache hit on a failed entry holds only for the entrypoints the entry lists (C12_all_or_nothing_hit_failure); the full statement is refuted (C12_all_or_nothing_warm_refuted, F-C12a)",
